@@ -24,7 +24,12 @@ PROP = dict(
          "mark filtering sets, FEA GDEF / name tables, vertical metrics, gasp, meta, avar maps, MVAR, named "
          "instances with PostScript names, designspace rules - and 6 option sets (flatten / decompose / transformed "
          "/ production names off / keep direction); (P) probes for serialisation failures (name storage beyond "
-         "64 KiB, GDEF ligature carets beyond 64 KiB, glyph names of 255 / 300 bytes); (M) mutants of emitted "
+         "64 KiB, GDEF ligature carets beyond 64 KiB, glyph names of 255 / 300 bytes); (N) post names through every path that changes a name after the source: "
+         "fixed probes (public.postscriptNames mapping two glyphs to one 253/254/255-byte name, names equal only "
+         "after illegal characters are stripped, a literal X.1 beside 1..9 duplicates of a 253-byte X, production "
+         "names off, no map, a 258-byte name that fits once cleaned) and generated mixes of these; the emitted post "
+         "is judged by the predicate and its names (or the length error) are compared with the model's "
+         "final_names / post_names; (M) mutants of emitted "
          "fonts (container: byte flip, swapped records, adjustment, padding, offsets, search range, renamed tag, "
          "truncation; tables: dangling / cyclic components, lowered maxp limits, counts, missing name id, indices "
          "out of range) which both the predicate and the Coq checker must reject. Per emitted font: the Rust "
